@@ -80,6 +80,7 @@ type State struct {
 	nobl     int
 	loopSeen map[*ssa.BasicBlock]bool
 	sliceBase map[string]sliceBaseInfo
+	strConv   map[string]Term // arrays made by []byte(s): array id -> s (for the extensionality hint of strof)
 	nestedM   bool                 // scratch states: a nested pure interface method call was evaluated
 	msyms     map[string][]msymRec // pure-method symbols declared so far, per method
 	calls     []CallRec // dynamic (interface / function-value) calls made so far on this path
@@ -143,6 +144,10 @@ func (st *State) clone() *State {
 	}
 	n.calls = append([]CallRec(nil), st.calls...)
 	n.callsLost = st.callsLost
+	n.strConv = make(map[string]Term, len(st.strConv))
+	for k, v := range st.strConv {
+		n.strConv[k] = v
+	}
 	n.sliceBase = make(map[string]sliceBaseInfo, len(st.sliceBase))
 	for k, v := range st.sliceBase {
 		n.sliceBase[k] = v
